@@ -65,7 +65,7 @@ LR_FAMILY = {
 }
 
 EXC_TYPES = ['KeyError', 'IndexError', 'ValueError', 'TypeError', 'AttributeError', 'AssertionError', 'RuntimeError', 'StopIteration',
-             'LookupError', 'Custom']
+             'LookupError', 'Custom', 'TypeError-about-arguments', 'FailedParse-looking-message']
 
 
 class Custom(Exception):
@@ -74,6 +74,11 @@ class Custom(Exception):
 
 def exc_instance(name):
     import builtins
+    if name == 'TypeError-about-arguments':
+        # what calling a helper with the wrong number of arguments inside an action raises
+        return TypeError('helper() takes 2 positional arguments but 3 were given')
+    if name == 'FailedParse-looking-message':
+        return ValueError("error: expecting 'a'")
     cls = Custom if name == 'Custom' else getattr(builtins, name)
     return cls('raised-by-action')
 
@@ -440,6 +445,73 @@ def shard_objects(m, items, inputs=()):
                             m.violation(f'object-kind/{kname}/later-parse-called-actions-of-earlier-object/{which}', **where)
 
 
+# ------------------------------------------------------------ how the arguments of an action are bound
+
+BINDING_GRAMMAR = ("start: int hex len plain dflt kwonly dflt7 kw0 $ ;\n\nint[A, 1]: 'a' ;\n\nhex(k=2): 'b' ;\n\nlen[B]: 'a' ;\n\nplain[C, 3]: 'b' ;\n\n"
+                   "dflt: 'a' ;\n\nkwonly: 'b' ;\n\ndflt7[7]: 'a' ;\n\nkw0(flag=0): 'b' ;\n")
+
+
+class Binding:
+    """Actions named like builtins, with defaults and with keyword-only parameters: each records what it was called with."""
+
+    def __init__(self):
+        self.log = []
+
+    def _rec(self, name, ast, a, k):
+        self.log.append((name, ast, tuple(a), tuple(sorted((x, y) for x, y in k.items() if x != 'parseinfo'))))
+        return ast
+
+    def int(self, ast, *a, **k):
+        return self._rec('int', ast, a, k)
+
+    def hex(self, ast, *a, **k):
+        return self._rec('hex', ast, a, k)
+
+    def len(self, ast, *a, **k):
+        return self._rec('len', ast, a, k)
+
+    def plain(self, ast, *a, **k):
+        return self._rec('plain', ast, a, k)
+
+    def dflt(self, ast, extra=5):
+        return self._rec('dflt', ast, (extra,), {})
+
+    def dflt7(self, ast, extra=5):
+        return self._rec('dflt7', ast, (extra,), {})
+
+    def kwonly(self, ast, *, flag=True):
+        return self._rec('kwonly', ast, (), {'flag': flag})
+
+    def kw0(self, ast, *, flag=True):
+        return self._rec('kw0', ast, (), {'flag': flag})
+
+
+BINDING_WANT = [('int', 'a', ('A', 1), ()), ('hex', 'b', (), (('k', 2),)), ('len', 'a', ('B',), ()), ('plain', 'b', ('C', 3), ()),
+                ('dflt', 'a', (5,), ()), ('kwonly', 'b', (), (('flag', True),)), ('dflt7', 'a', (7,), ()), ('kw0', 'b', (), (('flag', 0),))]
+
+
+def binding_part(rc):
+    """Every action is called with the AST and the rule's declared parameters, whatever the action is called and
+    whatever defaults its own signature declares (parameters the rule does not declare keep their defaults)."""
+    model = impl.compile_text(BINDING_GRAMMAR)
+    pcls, _src = c02.load_generated(model)
+    for which in ('model', 'generated'):
+        sem = Binding()
+        try:
+            import contextlib
+            import io
+            with contextlib.redirect_stderr(io.StringIO()):
+                (model if which == 'model' else pcls()).parse('a b a b a b a b', semantics=sem)
+            got = sem.log
+        except Exception as ex:  # noqa
+            got = f'{type(ex).__name__}: {ex}'[:200]
+        rc.add('evaluations')
+        rc.add('nontrivial')
+        if got != BINDING_WANT:
+            bad = [g for g, w in zip(got, BINDING_WANT) if g != w] if isinstance(got, list) else got
+            rc.violation(f'action-arguments-differ-from-the-declared-parameters/{which}', grammar=BINDING_GRAMMAR, got=bad, want=[w for g, w in zip(got, BINDING_WANT) if g != w] if isinstance(got, list) else BINDING_WANT)
+
+
 # ------------------------------------------------------------ values that compare equal across types
 
 TYPED_GRAMMAR = ("start: {value}+ $ ;\n\nvalue: t | o | f | z | n | e ;\n\nt: 'a' ;\n\no: 'b' ;\n\nf: 'c' ;\n\n"
@@ -597,6 +669,7 @@ def run(rc):
             items.append((name, rules, lr[i:i + 8], True))
     rc.pmap(shard_family, items, chunk=1)
     rc.pmap(shard_objects, ['retry', 'named', 'alias'], chunk=1, inputs=list(gs.inputs(['a', 'b', ' '], 3 if quick else 4)))
+    binding_part(rc)
     typed = [t for n in range(1, 4 if quick else 5) for t in itertools.product(sorted(TYPED_VALUES), repeat=n)]
     rc.pmap(shard_typed, typed)
     rc.pmap(shard_reuse, ['retry', 'named', 'alias'], chunk=1, inputs=list(gs.inputs(['a', 'b', ' '], 3 if quick else 4)))
